@@ -1234,6 +1234,9 @@ def rule_slice_ops(ctx):
         # outer product written as a broadcast: a[..., newaxis] * b   (rows from a, columns from b)
         bouter = []
         for c in walk_no_nested(fi.node):
+            # numpy.multiply(a, b) is the product a * b
+            if isinstance(c, ast.Call) and (dotted_name(c.func) or '') == 'numpy.multiply' and len(c.args) == 2 and not any(k.arg != 'out' for k in c.keywords):
+                c = ast.copy_location(ast.BinOp(left=c.args[0], op=ast.Mult(), right=c.args[1]), c)
             if isinstance(c, ast.BinOp) and isinstance(c.op, ast.Mult):
                 def trailing_newaxis(e):
                     if isinstance(e, ast.Subscript):
@@ -1246,6 +1249,7 @@ def rule_slice_ops(ctx):
                     bouter.append((c.left, c.right) if l_ else (c.right, c.left))
         if bouter and 'outer' in allowed:
             used.setdefault('outer', bouter[0][0])
+            used.pop('multiply', None)
             vp_ = fi.value_params()
             for rows, cols in bouter:
                 nr = {x.id for x in ast.walk(rows) if isinstance(x, ast.Name)}
